@@ -71,3 +71,34 @@ Definition render_handler (segs : list bytes) (keys : list bytes) : string :=
   join "," (map (fun k => show_hex k ++ "=" ++ match kv_get m k with Some v => "some:" ++ show_hex v | None => "none" end) keys).
 Definition render_handlers (cases : list (list bytes * list bytes)) : string :=
   join nl (map (fun '(segs, keys) => render_handler segs keys) cases).
+
+(* ---- client mode ---- *)
+From BC Require Import Resp.Client.
+Definition show_cres (c : cres) : string :=
+  match c with
+  | CUnit => "ok"
+  | CVal (Some v) => "some:" ++ show_hex v
+  | CVal None => "none"
+  | CInt n => "int:" ++ show_Z n
+  | CStorageErr msg => "storage:" ++ show_hex msg
+  | CBadFrame f => "badframe:" ++ show_frame f
+  | CReset => "reset"
+  | CFrameErr e => "frame:" ++ show_ferr e
+  | CBroken => "broken"
+  end.
+(* a session against a scripted server: the requests written (as long as the session lives) and the results *)
+Fixpoint zip_session (rs : list req) (cs : list cres) : list string :=
+  match rs, cs with
+  | r :: rs', c :: cs' => ("Q " ++ match enc (frame_of_req r) with Ok b => show_hex b | _ => "?" end) :: ("R " ++ show_cres c) :: zip_session rs' cs'
+  | _, _ => []
+  end.
+Definition render_client (rs : list req) (segs : list bytes) : string :=
+  join nl (zip_session rs (client_session rs (read_all (fixed Debug) segs [])) ++ ["end"])%list.
+Definition render_clients (cases : list (list req * list bytes)) : string :=
+  join nl (map (fun '(rs, segs) => render_client rs segs) cases).
+(* the composed model: the client's requests through the handler over the map, its replies through the client *)
+Definition render_api (rs : list req) : string :=
+  let reqbytes := List.concat (map (fun r => match enc (frame_of_req r) with Ok b => b | _ => []%list end) rs) in
+  let '(out, _, _) := handler_run [] [reqbytes] in
+  join ";" (map show_cres (client_session rs (read_all (fixed Debug) [out] []))).
+Definition render_apis (cases : list (list req)) : string := join nl (map render_api cases).
